@@ -153,14 +153,15 @@ Definition anchor_registered (anc : list (str * fdef)) : bool :=
   | Some d => existsb (fun e => negb (has_nested_container (snd e))) (fd_props d)
   end.
 
-(* F12b guard: a sub-field that is a legacy string says itself whether it is analysed, or its parent has no index *)
+(* F12b guard: a sub-field that is a legacy string says itself whether it is analysed, or does not inherit
+   index = not_analyzed from its parent *)
 Definition sub_self_described (p sd : fdef) : bool :=
   match fd_type sd with
   | None => false
   | Some ty => negb (str_eqb ty k_string) ||
                match fd_index sd with
                | Some _ => true
-               | None => match fd_index p with None => true | Some _ => false end
+               | None => match fd_index p with None => true | Some i => negb (str_eqb i k_not_analyzed) end
                end
   end.
 
